@@ -13,7 +13,7 @@ class LocationMediaMessageProtocolEntity(MediaMessageProtocolEntity):
 
     @property
     def media_specific_attributes(self):
-        return self.message_attributes.contact
+        return self.message_attributes.location
 
     @property
     def degrees_latitude(self):
